@@ -55,7 +55,7 @@ NATIVE_UNITS = {
                       "for_fns": ["match_datum", "transform"]},
     "library_witness": {"file": "src/interpreter/interpreter.rs", "source": "library_instances.rs",
                         "modpath": "interpreter::interpreter", "test": "verif_native_library_witness", "role": "witness",
-                        "for_fns": ["eval_library_definition"]},
+                        "for_fns": ["eval_library_definition", "get_library"]},
     "tail_space_witness": {"file": "src/interpreter/interpreter.rs", "source": "tail_space.rs",
                            "modpath": "interpreter::interpreter", "test": "verif_native_tail_space_witness", "role": "witness",
                            "for_fns": ["eval_tail_expression", "eval_owned_tail_expression", "apply_procedure", "eval_procedure_call"]},
@@ -96,15 +96,18 @@ _TAIL_UNVERIFIED = [
 
 PROPS = {
     "C13": {
-        "verus": ["interp_library"], "kani": [], "native": ["library_witness"],
+        "verus": ["interp_library", "interp_loader"], "kani": [], "native": ["library_witness"],
         "level": "proof",
         "explanation": "Interpreter::eval_library_definition is proved, for library definitions of any size, to evaluate the library's "
                        "imports and body in a frame of its own (created by Environment::new(): no parent, so nothing of the importer is "
                        "visible in it -- every call into the evaluator requires exactly that frame) and to build a library that holds "
                        "exactly the bindings of its export specs, in order: external name |-> what the internal name is bound to in that "
-                       "frame (rename exports under the external name only; an export of an unbound name is an error, never a binding).",
-        "unverified": ["'all imports of a library within one program refer to one instance' (true since fix e409057): get_library / new_library "
-                       "(factories and instances in HashMaps) are not under contract -- covered by the witness search library_witness only",
+                       "frame (rename exports under the external name only; an export of an unbound name is an error, never a binding). "
+                       "Interpreter::get_library (unit interp_loader) is proved to hand out the EXISTING instance of a library that has one "
+                       "(changing nothing), and otherwise to record the instance it loads under the library's name while keeping every other "
+                       "instance: all imports of a library within one program refer to one instance.",
+        "unverified": ["new_library (instantiation) and register_library_factory: not under contract (get_library's contract ASSUMES that "
+                       "instantiating a library keeps every existing instance)",
                        "that the importer gains only what eval_import_set returns (eval_import: HashMap::extend + define, not under contract)",
                        "that redefining an imported name in the importer does not affect the library's procedures: closures capture the "
                        "library's frame (evaluator semantics, C01) -- covered by the witness search only"],
